@@ -268,6 +268,14 @@ class Interface(object):
 
         key = method.gen_interface_key(s)
         if key in self.method_id_map:
+            om = self.method_id_map[key]
+            if om is not method and om.function is not method.function \
+                            and om.aux is None and method.aux is None \
+                                         and not issubclass(s, ComplexModelBase):
+                # two functions of one service class published under one name
+                raise ValueError("\nThe message %r is defined twice in '%s.%s'"
+                                     % (method.name, s.__module__, s.__name__))
+
             c = self.method_id_map[key].parent_class
             if c is None:
                 pass
